@@ -225,3 +225,69 @@ func VerifC03Close() {
 	cb.OnRequestComplete(0, nil)
 	rt.Assert(cb.CurrentState() == Closed, "closing cleared the statistics of the whole window: a healthy completion afterwards does not re-open the breaker")
 }
+
+// verifReentrant: a listener that sends a request of its own to the breaker while it is being told of
+// the transition to Open (listeners run synchronously inside the transition).
+type verifReentrant struct {
+	cb       CircuitBreaker
+	ctx      *base.EntryContext
+	opens    int
+	admitted int
+}
+
+func (l *verifReentrant) OnTransformToClosed(prev State, rule Rule) {}
+func (l *verifReentrant) OnTransformToOpen(prev State, rule Rule, s interface{}) {
+	l.opens++
+	if l.cb.TryPass(l.ctx) {
+		l.admitted++
+	}
+}
+func (l *verifReentrant) OnTransformToHalfOpen(prev State, rule Rule) {}
+
+// VerifC03Listener: while open every request is rejected until the retry timeout has elapsed — also a
+// request made from a state-change listener during the very transition to Open (from Closed and from
+// HalfOpen), for all three strategies.
+func VerifC03Listener() {
+	strategy := Strategy(rt.Choice(3))
+	retry := 1 + rt.U32n("retry", 8)
+	r := &Rule{Resource: "r", Strategy: strategy, RetryTimeoutMs: retry, MinRequestAmount: 1, StatIntervalMs: 1000,
+		StatSlidingWindowBucketCount: 1, MaxAllowedRtMs: 10, ProbeNum: 0, Threshold: 0.5}
+	if strategy == ErrorCount {
+		r.Threshold = 1
+	}
+	t := uint64(2000000000000) + rt.U64n("t0", 9)
+	rt.SetClockMs(t)
+	cb, err := cbGenFuncMap[strategy](r, nil)
+	if err != nil || cb == nil {
+		rt.Assert(false, "the built-in generator builds a breaker for a valid rule")
+		return
+	}
+	ctx := base.NewEmptyEntryContext()
+	ctx.Resource = base.NewResourceWrapper("r", base.ResTypeCommon, base.Outbound)
+	ctx.SetEntry(base.NewSentinelEntry(ctx, ctx.Resource, nil))
+	lis := &verifReentrant{cb: cb, ctx: ctx}
+	stateChangeListeners = []StateChangeListener{lis}
+	boom := errors.New("boom")
+	bad := func() {
+		if strategy == SlowRequestRatio {
+			cb.OnRequestComplete(1000, nil)
+		} else {
+			cb.OnRequestComplete(0, boom)
+		}
+	}
+	bad()
+	rt.Reach("c03.listener-open")
+	rt.Assert(cb.CurrentState() == Open && lis.opens == 1, "one failing completion trips the breaker of the harness rule")
+	rt.Assert(lis.admitted == 0, "a request made while the listeners are told of the transition to Open is rejected (the retry timeout has not elapsed)")
+	// second round: the retry timeout elapses, the probe fails, the breaker re-opens
+	t += uint64(retry) + rt.U64n("wait", 9)
+	rt.SetClockMs(t)
+	if !cb.TryPass(ctx) {
+		rt.Assert(false, "after the retry timeout one probe is admitted")
+		return
+	}
+	bad()
+	rt.Assert(cb.CurrentState() == Open && lis.opens == 2, "a failed probe re-opens the breaker")
+	rt.Assert(lis.admitted == 0, "a request made while the listeners are told of the re-opening is rejected for a full retry timeout")
+	stateChangeListeners = nil
+}
